@@ -17,7 +17,7 @@ func init() {
 			"(R29.2) a rejection is an error: no return of util/bytes.go hands back an error value that is known to be nil on every path to it; " +
 			"(R29.3) every allocation sized by a length read from the input is preceded by an upper-bound test, every slice expression on input bytes by the matching length test; " +
 			"(R29.4) writer and reader agree: a lengthed item is length ++ bytes on both sides, a lengthed list is count ++ items on both sides, list readers report success only after the loop over all announced items ran to completion and store an item only after it was read; the frame writer and reader exchange the same 2 version bytes.",
-		NotDecided: "byte equality of the round trip; arbitrary chunking beyond the who-may-Read rule; the writers do not refuse lists longer than the readers accept (32767 items, 2 GiB per item): such frames are written and then rejected on reading.",
+		NotDecided: "byte equality of the round trip; arbitrary chunking beyond the who-may-Read rule; items longer than the 2 GiB item limit (written, then refused by the reader).",
 		Run:        runC29,
 	})
 }
@@ -391,4 +391,16 @@ func listLimitRules(c *Ctx) {
 	ok := len(sl) == 1 && len(bl) == 1 && sl[0].op == bl[0].op && sl[0].k == bl[0].k
 	c.Report(sfn, "stream and buffer list readers refuse the same counts", sfn.Pos(), ok,
 		fmt.Sprintf("stream: count %v %s; buffer: count %v %s", sl[0].op, sl[0].k, bl[0].op, bl[0].k))
+	if !ok || sl[0].op != token.GTR {
+		return
+	}
+	// the writers refuse what the readers refuse: a list that was written reads back
+	for _, t := range [][2]string{{"util.WriteLengthedSlice", "len(m)"}, {"util.(*BytesFrameWriter).Header", "len(bs)"}} {
+		fn := c.Need(t[0])
+		if fn == nil {
+			continue
+		}
+		ws := c.CallsD(fn, "*.Write(util.Uint64ToBytes("+t[1]+"))")
+		c.MP(fn, "list writer: the count part is written only for a count the readers accept", ws, 1, GCmp(t[1], "<=", sl[0].k))
+	}
 }
